@@ -17,8 +17,8 @@ import (
 	"context"
 	"crypto/hpke"
 	"crypto/sha256"
-	"encoding/hex"
 	"encoding/binary"
+	"encoding/hex"
 	"encoding/json"
 	"errors"
 	"fmt"
@@ -56,13 +56,17 @@ type WL struct {
 	OutMode string      `json:"out_mode"` // absent | empty | nonempty (output directory before staged unpack)
 	Sweep   string      `json:"sweep,omitempty"`
 	Muts    []Mut       `json:"muts"`
+	// Align > 0: one property is padded until some fragment's size on disk is an exact multiple of Align
+	// (the sizes at which buffered readers stop looking: 512, 4096, 32768, 65536). Pad is the padding found
+	// (recorded by the run that found it, so that a replay does not search again).
+	Align int `json:"align,omitempty"`
 }
 
 var kindsFor = map[string][]string{
 	"loaddir": {"frag_byte", "frag_byte", "frag_trunc", "frag_extend", "frag_swap", "frag_remove", "manifest_byte", "manifest_byte", "manifest_byte", "manifest_trunc",
-		"mf_count", "mf_cbytes", "mf_sha", "mf_path", "mf_phase", "mf_codec", "mf_graphcount", "mf_nodecount", "mf_dropmetrics", "mf_metrics_value", "extra_garbage_manifest",
+		"mf_count", "mf_cbytes", "mf_sha", "mf_path", "mf_phase", "mf_codec", "mf_graphcount", "mf_nodecount", "mf_count_shift", "mf_count_shift", "mf_dropmetrics", "mf_metrics_value", "extra_garbage_manifest",
 		"resigned_bad_edge", "resigned_bad_edge", "resigned_dup_node", "resigned_bad_type", "resigned_bad_type", "mf_path_alias", "mf_zero_count", "mf_zero_count", "mf_forged_zero_entry"},
-	"tarload": {"byte", "byte", "trunc", "extend", "hostile", "hostile", "hostile", "readerr"},
+	"tarload":   {"byte", "byte", "trunc", "extend", "hostile", "hostile", "hostile", "readerr"},
 	"unpackenc": {"byte", "byte", "trunc", "extend", "frame_swap", "frame_dup", "frame_drop", "frame_dropfinal", "frame_type", "wrongkey", "hostile", "readerr", "inner_frag_byte", "inner_alias_corrupt", "inner_alias_only"},
 	"unpack":    {"byte", "byte", "trunc", "extend", "frame_swap", "frame_dup", "frame_drop", "frame_dropfinal", "frame_type", "wrongkey", "hostile", "hostile", "readerr", "inner_frag_byte", "inner_alias_corrupt", "inner_alias_only"},
 	"loadarchive": {"byte", "byte", "trunc", "extend", "frame_swap", "frame_dup", "frame_drop", "frame_dropfinal", "wrongkey", "hostile", "readerr",
@@ -98,7 +102,14 @@ func gen(r *rand.Rand) WL {
 		w.Muts = []Mut{{A: r.Uint32()}}
 		return w
 	}
+	if r.IntN(15) == 0 {
+		w.Align = []int{512, 4096, 4096, 4096, 32768, 65536}[r.IntN(6)]
+	}
 	for i := 0; i < 30; i++ {
+		if w.Align > 0 && i%3 == 0 {
+			w.Muts = append(w.Muts, Mut{Consumer: "loaddir", Kind: []string{"frag_extend", "frag_extend", "frag_trunc", "frag_byte"}[r.IntN(4)], A: r.Uint32(), B: r.Uint32(), C: r.Uint32()})
+			continue
+		}
 		c := consumers[r.IntN(len(consumers))]
 		ks := kindsFor[c]
 		w.Muts = append(w.Muts, Mut{Consumer: c, Kind: ks[r.IntN(len(ks))], A: r.Uint32(), B: r.Uint32(), C: r.Uint32()})
@@ -130,6 +141,7 @@ type art struct {
 	dump     string // pristine dump directory (outside allowed: must never change)
 	manifest []byte
 	frags    []string // relative fragment paths
+	aligned  []string // fragments whose size on disk is a multiple of w.Align
 	tarBytes []byte
 	enc      []byte
 	priv     hpke.PrivateKey
@@ -188,7 +200,13 @@ func build(t *testing.T, cfg simrt.Config, w WL, base string, counters map[strin
 	for _, g := range m.Graphs {
 		for _, f := range g.Files {
 			a.frags = append(a.frags, f.Path)
+			if w.Align > 0 && f.CompressedBytes > 0 && f.CompressedBytes%int64(w.Align) == 0 {
+				a.aligned = append(a.aligned, f.Path)
+			}
 		}
+	}
+	if len(a.aligned) > 0 {
+		counters["dumps_with_buffer_aligned_fragment"]++
 	}
 	var tb bytes.Buffer
 	if err := retriever.WriteCollectionTar(&tb, a.dump); err != nil {
@@ -315,7 +333,9 @@ var hostiles = []hostile{
 	{"duplicate_manifest", true, func(a *art) tarEntry { return reg("manifest.json", string(a.manifest)) }},
 	{"duplicate_via_clean", true, func(a *art) tarEntry { return reg("./manifest.json", string(a.manifest)) }},
 	{"extra_file", false, func(a *art) tarEntry { return reg("graphs/extra.jsonl", "{}\n") }},
-	{"pax_long_name_parent", true, func(a *art) tarEntry { return reg(strings.Repeat("a/", 120)+"../"+strings.Repeat("../", 125)+"victim/long.txt", "x") }},
+	{"pax_long_name_parent", true, func(a *art) tarEntry {
+		return reg(strings.Repeat("a/", 120)+"../"+strings.Repeat("../", 125)+"victim/long.txt", "x")
+	}},
 }
 
 // ---- consumers ----
@@ -673,8 +693,38 @@ func (a *art) runLoadDir(mu Mut) (string, string) {
 		tag += " " + rel
 	case "frag_extend":
 		rel, b := pickFrag()
-		os.WriteFile(filepath.Join(dir, filepath.FromSlash(rel)), append(b, byte(mu.C), '\n'), 0o600)
-		tag += " " + rel
+		if len(a.aligned) > 0 {
+			rel = a.aligned[int(mu.A)%len(a.aligned)]
+			b, _ = os.ReadFile(filepath.Join(dir, filepath.FromSlash(rel)))
+			a.counters["extensions_of_buffer_aligned_fragment"]++
+		}
+		var tail []byte
+		switch mu.B % 4 {
+		case 0:
+			tail = []byte{byte(mu.C), '\n'}
+		case 1:
+			tail = []byte{byte(mu.C)}
+		case 2:
+			tail = bytes.Repeat([]byte{byte(mu.C), 'x', '\n'}, 1700)
+		default:
+			// a second, well-formed member / frame of the same codec holding one more record
+			var mb bytes.Buffer
+			switch a.w.Opts.Codec {
+			case "gzip":
+				zw := gzip.NewWriter(&mb)
+				zw.Write([]byte("{\"id\":\"424242\",\"kinds\":[\"Injected\"],\"properties\":{}}\n"))
+				zw.Close()
+			case "zstd":
+				zw, _ := zstd.NewWriter(&mb)
+				zw.Write([]byte("{\"id\":\"424242\",\"kinds\":[\"Injected\"],\"properties\":{}}\n"))
+				zw.Close()
+			default:
+				mb.WriteString("{\"id\":\"424242\",\"kinds\":[\"Injected\"],\"properties\":{}}\n")
+			}
+			tail = mb.Bytes()
+		}
+		os.WriteFile(filepath.Join(dir, filepath.FromSlash(rel)), append(append([]byte{}, b...), tail...), 0o600)
+		tag += fmt.Sprintf(" %s (+%d bytes)", rel, len(tail))
 	case "frag_swap":
 		if len(a.frags) < 2 {
 			return "", ""
@@ -845,6 +895,29 @@ func (a *art) runLoadDir(mu Mut) (string, string) {
 				}
 				g, _ := gs[int(mu.A)%len(gs)].(map[string]any)
 				g["node_count"] = bump(g["node_count"], 1)
+			case "mf_count_shift":
+				// two edits that cancel: one graph's count raised, another's lowered by as much (collection-wide
+				// totals are unchanged); with or without the metrics block that would also pin the counts
+				gs, _ := m["graphs"].([]any)
+				if len(gs) < 2 {
+					return false
+				}
+				i := int(mu.A) % len(gs)
+				j := (i + 1 + int(mu.B)%(len(gs)-1)) % len(gs)
+				key := []string{"node_count", "edge_count"}[mu.C%2]
+				k := int64(1 + mu.B%3)
+				up, _ := gs[i].(map[string]any)
+				down, _ := gs[j].(map[string]any)
+				if n, _ := down[key].(json.Number); func() bool { v, _ := n.Int64(); return v < k }() {
+					up, down = down, up
+					if n, _ := down[key].(json.Number); func() bool { v, _ := n.Int64(); return v < k }() {
+						return false
+					}
+				}
+				up[key], down[key] = bump(up[key], k), bump(down[key], -k)
+				if mu.C%4 < 2 {
+					delete(m, "metrics")
+				}
 			case "mf_zero_count":
 				// a self-consistent manifest (totals still equal the per-file sums, no metrics block to contradict it)
 				// that declares an existing, non-empty fragment to hold zero records
@@ -1340,6 +1413,77 @@ func (a *art) run(mu Mut) (string, string) {
 	}
 }
 
+// alignFragment pads one property of the first node until some fragment of the dump has a size on
+// disk that is a multiple of w.Align. The search is a function of the workload alone.
+func alignFragment(t *testing.T, cfg simrt.Config, w WL, base string) WL {
+	gi := -1
+	for i, g := range w.DB.Graphs {
+		if len(g.Nodes) > 0 {
+			gi = i
+			break
+		}
+	}
+	if gi < 0 {
+		return w
+	}
+	c := w
+	c.DB.Graphs = append([]stor.GraphSpec{}, w.DB.Graphs...)
+	g := c.DB.Graphs[gi]
+	g.Nodes = append([]stor.NodeSpec{}, g.Nodes...)
+	n0 := g.Nodes[0]
+	props := map[string]any{}
+	for k, v := range n0.Props {
+		props[k] = v
+	}
+	n0.Props = props
+	g.Nodes[0] = n0
+	c.DB.Graphs[gi] = g
+	dir := filepath.Join(base, "align-probe")
+	measure := func(n int) (best int64, ok bool) {
+		props["pad"] = fmt.Sprintf("@@RND:%d", n)
+		os.RemoveAll(dir)
+		var derr error
+		if cl, _ := stor.UnderSim(t, cfg, "align-probe", func() {
+			_, derr = retriever.Dump(context.Background(), stor.Build(c.DB), "simdb", stor.Targets(c.DB), stor.DumpOptions(dir, c.Opts))
+		}); cl != "" || derr != nil {
+			return 0, false
+		}
+		m, err := retriever.ReadManifest(dir)
+		if err != nil {
+			return 0, false
+		}
+		// distance of the padded node's fragment (the largest one) to the next multiple
+		var size int64
+		for _, gm := range m.Graphs {
+			for _, f := range gm.Files {
+				size = max(size, f.CompressedBytes)
+			}
+		}
+		return size, true
+	}
+	n := w.Align
+	if len(w.Muts) > 0 {
+		n += int(w.Muts[0].A % uint32(w.Align))
+	}
+	for iter := 0; iter < 200; iter++ {
+		size, ok := measure(n)
+		if !ok {
+			break
+		}
+		rem := int(size % int64(w.Align))
+		if rem == 0 {
+			os.RemoveAll(dir)
+			return c
+		}
+		missing := w.Align - rem
+		// a character adds at most about a byte: never overshoot by more than the codec's slack
+		n += max(1, missing*9/10)
+	}
+	os.RemoveAll(dir)
+	delete(props, "pad")
+	return w
+}
+
 func exec(t *testing.T, w WL, cfg simrt.Config) simh.Outcome {
 	o := simh.Outcome{Counters: map[string]int{}}
 	nt := true
@@ -1353,6 +1497,9 @@ func exec(t *testing.T, w WL, cfg simrt.Config) simh.Outcome {
 	defer simos.Disable()
 	// key generation and HPKE encapsulation draw from crypto/rand: pin it to the run's seed
 	cryptotest.SetGlobalRandom(t, cfg.Seed)
+	if w.Align > 0 {
+		w = alignFragment(t, cfg, w, base)
+	}
 	a, err := build(t, cfg, w, base, o.Counters)
 	if err != nil {
 		o.Class, o.Detail = "infra", "building artefacts: "+err.Error()
